@@ -12,7 +12,7 @@
    [closed h]: every reference in h points to an allocated id (< next h). *)
 From Coq Require Import List ZArith NArith PArith Bool Lia.
 From IRV Require Import Base.Exn C13.Model C13.Proofs1 C13.Proofs3 C13.Proofs8 C13.Proofs9 C13.Proofs10
-     C13.Proofs11 C13.Proofs12.
+     C13.Proofs11 C13.Proofs12 C13.Proofs13.
 Import ListNotations.
 Local Open Scope positive_scope.
 
@@ -209,28 +209,27 @@ Theorem C13_functional_pass_pure :
 Proof. exact P_functional_pass_pure. Qed.
 Print Assumptions C13_functional_pass_pure.
 
-(* ---- the defect (known finding "unsorted-outer-scope"): the hypothesis of C13_closed cannot be dropped.
-   For the graph  g(x): [B: b = Neg(a); A: a = Relu(x)] -> b  (B listed before A), Graph.clone with
-   allow_outer_scope_values=True returns a clone whose node B reads the ORIGINAL's value a — a value the cloned
-   graph owns and for which a clone exists in the value map — and the same graph is rejected without the flag. *)
-Theorem C13_unsorted_outer_refuted :
-  exists h g fuel g' x,
-    let run := graph_clone fuel true false g h in
-    closed h /\ g < next h /\ snd run = Ok g' /\
-    reach (cells (hp (fst run))) (next h) g' x /\ x < next h /\
-    (exists v, cells h x = Some (CValue v)) /\ In x (owned (cells h) 2 g) /\
-    In x (passed (fst run)) /\ assoc x (vmap (fst run)) <> None /\
-    snd (graph_clone fuel false false g h) = Raise RuntimeError.
-Proof. exact P_unsorted_outer_refuted. Qed.
-Print Assumptions C13_unsorted_outer_refuted.
+(* ---- C13_closed without its "defined before use" hypothesis (code after fix "clone_graph raises on a value used
+   before its definition"): the cloner itself rejects a graph in which a passed-through value later receives a
+   clone, so for every ACCEPTED clone of a graph satisfying C19's invariant every pre-existing cell reachable from
+   the clone is a shared Attr, a shallow meta object, or a passed-through value the cloned graph does not own. *)
+Theorem C13_closed_accepted :
+  forall allow deep h fuel g st g',
+    closed h -> g < next h -> wf_dev h -> graph_clone fuel allow deep g h = (st, Ok g') ->
+    forall x, reach (cells (hp st)) (next h) g' x -> x < next h ->
+      (exists a, cells h x = Some (CAttr a) /\ shared_attr a) \/
+      (deep = false /\ exists m md k, cells h m = Some (CMeta md) /\ In (k, MObj x) (m_data md)) \/
+      (In x (passed st) /\ forall k, ~ In x (owned (cells h) k g)).
+Proof. exact Proofs13.C13_closed_accepted. Qed.
+Print Assumptions C13_closed_accepted.
 
-(* ---- the hypotheses are satisfiable by a non-trivial state: the witness heap is closed, its dictionaries are
-   well formed, it satisfies C19's invariant, and its graph is cloned successfully (with the flag) *)
-Example C13_hypotheses_satisfiable :
-  closed wit_heap /\ dicts_wf wit_heap /\ wf_dev wit_heap /\ 19 < next wit_heap /\
-  snd (graph_clone 3 true false 19 wit_heap) = Ok 38 /\
-  gcanon (cells (hp (fst (graph_clone 3 true false 19 wit_heap)))) 3 38 = gcanon (cells wit_heap) 3 19.
-Proof.
-  split; [exact wit_closed|]. split; [exact wit_wf|]. split; [exact wit_wfdev|]. split; [reflexivity|].
-  split; [exact wit_result|exact wit_canon_equal].
-Qed.
+(* the unsorted graph g(x): [B: b = Neg(a); A: a = Relu(x)] -> b is now rejected with and without the flag *)
+Theorem C13_unsorted_rejected :
+  snd (graph_clone 3 true false 19 wit_heap) = Raise RuntimeError /\
+  snd (graph_clone 3 false false 19 wit_heap) = Raise RuntimeError.
+Proof. exact Proofs13.C13_unsorted_rejected. Qed.
+Print Assumptions C13_unsorted_rejected.
+
+(* ---- the hypotheses are satisfiable by a non-trivial state *)
+Example C13_hypotheses_satisfiable : closed wit_heap /\ dicts_wf wit_heap /\ wf_dev wit_heap /\ 19 < next wit_heap.
+Proof. split; [exact wit_closed|]. split; [exact wit_wf|]. split; [exact wit_wfdev|reflexivity]. Qed.
